@@ -68,6 +68,15 @@ def prepare_tree(tree: pathlib.Path, harness_files):
     lib.write_text(lib.read_text() + '\n#[cfg(kani)]\npub mod verif_common;\n')
     for hf in harness_files:
         patch.inject_harness(tree, hf)
+    # cargo feature that switches the thorough-only harnesses on (`#[cfg(feature = "verif_thorough")]`)
+    ct = tree / 'Cargo.toml'
+    t = ct.read_text()
+    if 'verif_thorough' not in t:
+        if re.search(r'^\[features\]', t, re.M):
+            t = re.sub(r'^\[features\]\n', '[features]\nverif_thorough = []\n', t, count=1, flags=re.M)
+        else:
+            t += '\n[features]\nverif_thorough = []\n'
+        ct.write_text(t)
     return touched
 
 
@@ -91,7 +100,7 @@ def kani_env():
     return env
 
 
-def run_kani(scratch: Scratch, harness_filters, jobs, timeout_s, extra=(), logfile=None):
+def run_kani(scratch: Scratch, harness_filters, jobs, timeout_s, extra=(), logfile=None, tier='quick'):
     """One cargo-kani invocation over all selected harnesses; per-harness output goes to
     <target>/result_output_dir/<harness>.  Returns (returncode, driver output, wall seconds)."""
     cmd = ['cargo', 'kani', '-Z', 'stubbing', '-Z', 'unstable-options',
@@ -99,6 +108,8 @@ def run_kani(scratch: Scratch, harness_filters, jobs, timeout_s, extra=(), logfi
            '-j', str(jobs), '--output-format', 'terse', '--output-into-files']
     for h in harness_filters:
         cmd += ['--harness', h]
+    if tier == 'thorough':
+        cmd += ['--features', 'verif_thorough']
     cmd += list(extra)
     cmd += ['--cbmc-args', '--max-field-sensitivity-array-size', str(FIELD_SENS)]
     t0 = time.time()
